@@ -128,7 +128,7 @@ typedef struct {
   uint64_t pval[PS_MAXVARS];
 } RunCfg;
 
-typedef struct { int n_max; int m_max; int big_n; int exhaustive_pairs; int placement_mask; } RunOpts;
+typedef struct { int n_max; int m_max; int big_n; int exhaustive_pairs; int placement_mask; int huge_n; } RunOpts;
 void rc_generate (VChoices *c, const ProgSpec *ps, const RunOpts *o, RunCfg *rc);
 void rc_print (const ProgSpec *ps, const RunCfg *rc, VResult *r);
 uint64_t rc_hash (const RunCfg *rc, const ProgSpec *ps);
